@@ -370,6 +370,15 @@ func (c *Ctx) smsInvariant() {
 				}
 			}
 			r.Check(ok, "C02.code-send", name, "PutSession("+secret+")", posf(c, op.Call), "the code stored is the code handed to Sender.Send", "the code stored in the session is not the value handed to Sender.Send in the same function")
+			// every code issued is new: nothing read from the request's session (a code issued
+			// earlier, possibly for another account or number) is issued again
+			fresh := true
+			for _, o := range c.rawOrigins(op.Val) {
+				if o.Kind == "call" && (strings.HasPrefix(o.Name, fnGetSession+"#") || strings.HasPrefix(o.Name, fnCtxValue+"#") || strings.HasPrefix(o.Name, "(ab.ClientState).Get#")) {
+					fresh = false
+				}
+			}
+			r.Check(fresh, "C02.code-fresh", name, "PutSession("+secret+").value", posf(c, op.Call), "a newly generated code", "the code issued can be one read back from the request's session: the deletion queued by the hijack handler is not visible to GetSession in the same request, so the code sent for the previous pending account is issued again for the new one")
 		}
 	}
 }
